@@ -1,11 +1,11 @@
 (** C09, part 1: the TIMER-ARMED invariant of the pseudo-TCP socket over all operation sequences.
 
-    [TI now s]: whenever there are unacknowledged sequence numbers in flight ([snd_una <> snd_nxt])
+    [TI ad now s]: whenever there are unacknowledged sequence numbers in flight ([snd_una <> snd_nxt])
     the retransmission timer is armed ([rto_base <> 0]); the retransmission time-out stays within
     [1000, 60000] ms; every time stamp kept in the socket lies in the past of the clock.
     Proved for every reachable state: any configuration, any sequence of API calls, any received bytes,
     any non-decreasing clock that avoids the value 0 (0 means "timer off" in the implementation). *)
-From Coq Require Import ZArith List Lia Bool.
+From Coq Require Import ZArith List Lia Bool ZifyBool.
 From RecordUpdate Require Import RecordSet.
 From Nice Require Import Base.Bytes Ptcp.PtcpModel Ptcp.C09Hoare.
 Import ListNotations.
@@ -14,13 +14,15 @@ Local Open Scope Z_scope.
 Local Open Scope bool_scope.
 Ltac Zify.zify_post_hook ::= Z.div_mod_to_equations.
 
-Definition TI (now : Z) (s : sock) : Prop :=
+Definition TI (ad now : Z) (s : sock) : Prop :=
   (snd_una s <> snd_nxt s -> rto_base s <> 0) /\
   1000 <= rx_rto s <= 60000 /\
-  0 <= rto_base s <= now /\ 0 <= lastsend s <= now /\ 0 <= lastrecv s <= now /\ 0 <= t_ack s <= now.
+  0 <= rto_base s <= now /\ 0 <= lastsend s <= now /\ 0 <= lastrecv s <= now /\ 0 <= t_ack s <= now /\
+  ack_delay s = ad.
 
-Ltac projs := cbn [set shutdown shutdown_reads error state conv bReadEnable bWriteEnable bOutgoing last_traffic rlist rbuf_len rcv_nxt rcv_wnd lastrecv rwnd_scale rbuf rcv_fin slist sbuf_len snd_nxt snd_wnd lastsend snd_una swnd_scale sbuf_cap sbuf sbuf_n mss msslevel largest mtu_advise rto_base ts_recent ts_lastack rx_rttvar rx_srtt rx_rto ssthresh cwnd dup_acks recover fast_recovery t_ack last_acked_ts use_nagling ack_delay support_wnd_scale support_fin_ack wr_limit] in *.
-Ltac case_ifs := repeat match goal with |- context [if ?b then _ else _] => destruct b eqn:? end.
+Ltac gprojs := cbn [set shutdown shutdown_reads error state conv bReadEnable bWriteEnable bOutgoing last_traffic rlist rbuf_len rcv_nxt rcv_wnd lastrecv rwnd_scale rbuf rcv_fin slist sbuf_len snd_nxt snd_wnd lastsend snd_una swnd_scale sbuf_cap sbuf sbuf_n mss msslevel largest mtu_advise rto_base ts_recent ts_lastack rx_rttvar rx_srtt rx_rto ssthresh cwnd dup_acks recover fast_recovery t_ack last_acked_ts use_nagling ack_delay support_wnd_scale support_fin_ack wr_limit].
+Ltac clear_bools := repeat match goal with H : @eq bool _ _ |- _ => clear H end.
+Ltac case_ifs := repeat (match goal with |- context [if ?b then _ else _] => destruct b eqn:? end; gprojs).
 
 (* frame of the pure helper [shrink_mss]: only the MTU level, the mss and the congestion window move *)
 Lemma shrink_mss_frame fuel : forall s nT s' o, shrink_mss fuel s nT = (s', o) ->
@@ -39,13 +41,17 @@ Ltac use_frames :=
   repeat match goal with
   | H : shrink_mss _ _ _ = (_, _) |- _ => apply shrink_mss_frame in H; destruct H as (? & ? & ? & ->)
   end.
-Ltac solveTI := solve [ use_frames; unfold TI, w32, M32, bound in *; case_ifs; projs; intuition (try lia) ].
+Ltac destruct_TI := repeat match goal with H : TI _ _ _ |- _ => destruct H as (? & ? & ? & ? & ? & ? & ?) end.
+Ltac abs_bound := repeat match goal with |- context [bound 1000 ?x 60000] =>
+  tryif is_var x then fail else (let v := fresh "bv" in set (v := x); clearbody v) end.
+Ltac solveTI := solve [ use_frames; clear_bools; destruct_TI; unfold TI; gprojs; case_ifs;
+                        abs_bound; unfold w32, M32, bound; repeat split; lia ].
 
 Section Pres.
-Variable now : Z.
+Variables ad now : Z.
 Hypothesis Hnow : 0 < now.
-Local Notation I := (TI now).
-Ltac go := wp_inv (TI now) solveTI.
+Local Notation I := (TI ad now).
+Ltac go := wp_inv (TI ad now) solveTI.
 
 Lemma set_state_TI n : pres I (set_state n).
 Proof. intros s ev Hi. unfold set_state. go. Qed.
@@ -136,4 +142,36 @@ Proof.
 Qed.
 Hint Resolve recover_rlist_TI : c09_pres.
 
+Lemma process_TI seg : pres I (process seg now).
+Proof. intros s ev Hi. unfold process. go. Qed.
+Hint Resolve process_TI : c09_pres.
+
+Lemma notify_packet_TI p : pres I (notify_packet p now).
+Proof. intros s ev Hi. unfold notify_packet. go. Qed.
+Lemma connect_TI : pres I (connect now).
+Proof. intros s ev Hi. unfold connect. go. Qed.
+Lemma notify_mtu_TI m : pres I (notify_mtu m).
+Proof. intros s ev Hi. unfold notify_mtu. go. Qed.
+Lemma notify_clock_TI : pres I (notify_clock now).
+Proof. intros s ev Hi. unfold notify_clock. go. Qed.
+Lemma get_next_clock_TI t : pres I (get_next_clock t now).
+Proof. intros s ev Hi. unfold get_next_clock. go. Qed.
+Lemma recv_TI n : pres I (recv n now).
+Proof. intros s ev Hi. unfold recv. go. Qed.
+Lemma send_TI d : pres I (send d now).
+Proof. intros s ev Hi. unfold send. go. Qed.
+Lemma shutdown_sock_TI h : pres I (shutdown_sock h now).
+Proof. intros s ev Hi. unfold shutdown_sock. go. Qed.
+Hint Resolve shutdown_sock_TI : c09_pres.
+Lemma close_sock_TI f : pres I (close_sock f now).
+Proof. intros s ev Hi. unfold close_sock. go. Qed.
+Lemma set_rcv_buf_TI n : pres I (set_rcv_buf n).
+Proof. intros s ev Hi. unfold set_rcv_buf. go. Qed.
+Lemma set_snd_buf_TI n : pres I (set_snd_buf n).
+Proof. intros s ev Hi. unfold set_snd_buf. go. Qed.
+
 End Pres.
+
+Lemma TI_mono ad now now' s : TI ad now s -> now <= now' -> TI ad now' s.
+Proof. unfold TI. intuition lia. Qed.
+
